@@ -307,6 +307,7 @@ structure DInv (sem : DSem) (d : DState) (w : World) : Prop where
   clean : EInv sem d.af (fun _ => False) d.enc w
   disabled : d.enc.enabled = false
   sync : EffRun d.af (d.buffer.drop d.next) d.pending
+  next_le : d.next ≤ d.buffer.length
 
 /-- **`update_encoding`**: whatever was buffered, afterwards the solver's framework is the pending
 one and the clause database encodes it with no stale constraint -/
@@ -361,7 +362,7 @@ theorem wp_updateEncoding {C : Prop} {sem : DSem} {d : DState} {w : World} (h : 
       · exact hj)
   refine wp_mono _ _ _ _ ?_ hfold2
   rintro e w2 ⟨_, ⟨hs, T, F, hI⟩, _⟩
-  refine ⟨⟨hinv, ⟨hs, T, F, (hI.weaken (fun j hj => by simp at hj)).set_enabled false⟩, rfl, ?_⟩,
+  refine ⟨⟨hinv, ⟨hs, T, F, (hI.weaken (fun j hj => by simp at hj)).set_enabled false⟩, rfl, ?_, Nat.le_refl _⟩,
     haf.symm, rfl, rfl, rfl⟩
   show EffRun r.af (d.buffer.drop d.buffer.length) d.pending
   rw [List.drop_length]
